@@ -104,7 +104,8 @@ def factor_at(fac, d8):
 def one_scenario(ctx, S, nonmonotone, n_calls, corrs):
     from rqalpha.environment import Environment
     from rqalpha.api import history_bars
-    c_cal, c_hist, c_api = corrs
+    c_cal, c_hist, c_api = corrs[:3]
+    c_week = corrs[3] if len(corrs) > 3 else None
     rnd = random.Random(ctx.rnd.random())
     cal = S["cal"]
     cal8 = [B.d8(d) for d in cal]
@@ -193,12 +194,77 @@ def one_scenario(ctx, S, nonmonotone, n_calls, corrs):
                                                       "returned_dates": [r[0] for r in rows] if rows is not None else None}))
             monitor_hist(ctx, S, st, rows, B.d8(dt), B.d8(dt), n, skip, adj, nonmonotone, "DataProxy.history_bars")
 
+    week_log = []
+
+    def week_of(d8v):
+        d = datetime.date(d8v // 10000, d8v // 100 % 100, d8v % 100)
+        return (d - datetime.timedelta(days=d.weekday())).toordinal()
+
+    def histw_calls(dp):
+        """weekly history straight from the data proxy: values of the last n weekly bars (labels are not compared)"""
+        names = ["open", "close", "high", "low", "volume", "total_turnover"]
+        for _ in range(max(4, n_calls // 3)):
+            st = rnd.choice(S["stocks"])
+            dt = rand_date()
+            n = rnd.choice([1, 2, 3, 5])
+            skip = rnd.random() < 0.5
+            inow = rnd.random() < 0.5
+            adj = rnd.choice(["pre", "pre", "post", "none"])
+            ctx.evaluations += 1
+            # the daily window the weekly bars are built from; weeks without any bar inside it are outside the model (label mapping and de-duplication)
+            rows_d = [st["bars"][i] for i in sorted(st["bars"])]
+            if skip and st["type"] == "CS":
+                rows_d = [r for r in rows_d if r[5] > 0]
+            d8 = B.d8(dt)
+            monday8 = int((dt - datetime.timedelta(days=dt.weekday())).strftime("%Y%m%d"))
+            sel = [r for r in rows_d if (r[0] // 1000000 <= d8 if inow else r[0] // 1000000 < monday8)][-n * 5:]
+            wk = [week_of(r[0] // 1000000) for r in sel]
+            if not sel or any(b - a > 7 for a, b in zip(wk, wk[1:])):
+                ctx.stats["weekly_calls_skipped_empty_week"] += 1
+                continue
+            try:
+                arr = dp.history_bars(st["id"], n, "1w", names, dt, skip_suspended=skip, include_now=inow, adjust_type=adj, adjust_orig=dt)
+                vals = [[float(row[nm]) for nm in names] for row in arr]
+            except Exception as ex:
+                ctx.stats["weekly_call_raises:" + type(ex).__name__] += 1
+                continue
+            line = "HISTW %d 0 %d %d %s %d %d %d %s %s" % (st["type"] == "CS", skip, inow, adj, n, d8, d8, bars_line(S, st), facs_line(S, st))
+            week_log.append((line, vals, {"op": "DataProxy.history_bars 1w", "id": st["id"], "n": n, "dt": str(dt), "skip_suspended": skip, "include_now": inow, "adjust": adj}))
+            # monitor (specification, independent of the model): each weekly bar aggregates the adjusted daily bars of its week
+            fac = S["fac"].get(st["id"])
+            groups = []
+            for r in sel:
+                if groups and week_of(groups[-1][-1][0] // 1000000) == week_of(r[0] // 1000000):
+                    groups[-1].append(r)
+                else:
+                    groups.append([r])
+            groups = groups[-n:]
+            if len(vals) == len(groups):
+                for g, v in zip(groups, vals):
+                    def f_of(r):
+                        if adj == "none" or fac is None:
+                            return 1.0
+                        base = factor_at(fac, d8) if adj == "pre" else 1.0
+                        return factor_at(fac, r[0] // 1000000) / base
+                    want = [g[0][1] * f_of(g[0]), g[-1][2] * f_of(g[-1]), max(r[3] * f_of(r) for r in g), min(r[4] * f_of(r) for r in g),
+                            sum(r[5] * (1 / f_of(r)) for r in g), sum(r[6] for r in g)]
+                    if any(abs(a - b) > 1e-9 * max(1.0, abs(b)) for a, b in zip(v, want)):
+                        ctx.witness("C20.2", {"kind": "weekly_bar", "adjust": adj}, "DataProxy.history_bars(%s, %d, '1w', end=%s, include_now=%s, adjust=%s): week of %s returned %r, aggregation of the adjusted daily bars %r"
+                                    % (st["id"], n, d8, inow, adj, g[0][0] // 1000000, v, want), {"id": st["id"], "n": n, "dt": str(dt), "include_now": inow, "adjust": adj})
+                        break
+            else:
+                ctx.witness("C20.1", {"kind": "weekly_window_length"}, "DataProxy.history_bars(%s, %d, '1w', end=%s, include_now=%s): %d weekly bars, the daily window holds %d weeks"
+                            % (st["id"], n, d8, inow, len(vals), len(groups)), {"id": st["id"], "n": n, "dt": str(dt), "include_now": inow})
+            ctx.nontrivial("histw", inow, adj, len(groups), skip and st["type"] == "CS")
+
     api_log = []
 
     def init(context):
         env = Environment.get_instance()
         cal_calls(env.data_proxy)
         hist_calls(env.data_proxy)
+        if c_week is not None:
+            histw_calls(env.data_proxy)
 
     def api_probe(phase):
         def f(context, bar_dict=None):
@@ -244,6 +310,17 @@ def one_scenario(ctx, S, nonmonotone, n_calls, corrs):
             line = "HIST %d 0 %d %s %d %d %d %s %s" % (st["type"] == "CS", skip, adj, n, int(end), td8, bars_line(S, st), facs_line(S, st))
             reqs.append((c_api, line, impl, {"op": "history_bars API", "phase": phase, "id": st["id"], "n": n, "trading_date": td8, "model_end": int(end),
                                              "skip_suspended": skip, "adjust": adj}))
+    if ctx.driver_ok and week_log and c_week is not None:
+        for (line, vals, case), rep in zip(week_log, vlib.ask_driver([w[0] for w in week_log])):
+            toks = rep.split()
+            ok = toks[0] != "NONE" and int(toks[0]) == len(vals)
+            if ok:
+                for k_, v in enumerate(vals):
+                    m = [b2f(x) for x in toks[1 + 9 * k_ + 1: 1 + 9 * k_ + 7]]       # open close high low volume turnover
+                    # first/last/max/min are bit-exact; the sums are compared to 1e-12 (pandas sums with compensation)
+                    if m[:4] != v[:4] or any(abs(a - b) > 1e-12 * max(1.0, abs(b)) for a, b in zip(m[4:], v[4:])):
+                        ok = False
+            c_week.add(ok, dict(case, impl=repr(vals)[:300], model=rep[:300]) if not ok else case)
     replies = vlib.ask_driver([r[1] for r in reqs]) if ctx.driver_ok else []
     for (corr, line, impl, case), rep in zip(reqs, replies):
         ok = rep.strip() == impl
@@ -294,7 +371,8 @@ def monitor_hist(ctx, S, st, rows, end8, orig8, n, skip, adj, nonmonotone, where
 def run(ctx):
     corrs = (ctx.corr("calendar functions", "TradingDatesMixin via DataProxy vs model (get_trading_dates, prev/next n, is_trading_date, n_until, count)"),
              ctx.corr("DataProxy.history_bars", "window + skip_suspended + adjust_bars on generated bar/factor tables vs model `historyBars`, bit-exact"),
-             ctx.corr("history_bars API by phase", "end-date rule of the API (previous trading day before the open) vs model `apiEndDate` + `historyBars`, bit-exact"))
+             ctx.corr("history_bars API by phase", "end-date rule of the API (previous trading day before the open) vs model `apiEndDate` + `historyBars`, bit-exact"),
+             ctx.corr("DataProxy.history_bars '1w'", "values of the weekly bars (daily window, adjustment of the daily bars, aggregation per calendar week) vs model `historyBarsWeekly`; first/last/max/min bit-exact, sums to 1e-12"))
     n_scen = ctx.n(10, 300)
     for k in range(n_scen):
         nonmono = (k % 5 == 4)
